@@ -690,6 +690,8 @@ func roundDecimal(value any, num float64, precision, scale int) (float64, bool) 
 		// (A text that underflows to zero is zero at any scale that matters,
 		// and its exponent may be too large to expand.)
 		switch val := value.(type) {
+		case int64:
+			exact.SetInt64(val)
 		case json.Number:
 			if r, ok := new(big.Rat).SetString(val.String()); ok {
 				exact = r
